@@ -33,10 +33,10 @@ def check(ctx):
     ctx.touch(H)
     fk = lib.fkey(R)
 
-    run_blocks = lib.call_blocks(R, lib.ends(A.TABLE["callback_run"]))
-    take_blocks = lib.call_blocks(R, lib.ends(A.TABLE["storage_take"]))
-    insert_blocks = lib.call_blocks(R, lib.ends(A.TABLE["storage_insert"]))
-    push_blocks = [b for b in lib.call_blocks(R, lambda n: lib.tail(n, 2) == A.TABLE["queue_type"] + "::push")]
+    run_blocks = lib.call_blocks(R, lib.ends(A.names(prog)["callback_run"]))
+    take_blocks = lib.call_blocks(R, lib.ends(A.names(prog)["storage_take"]))
+    insert_blocks = lib.call_blocks(R, lib.ends(A.names(prog)["storage_insert"]))
+    push_blocks = [b for b in lib.call_blocks(R, lambda n: lib.tail(n, 2) == A.names(prog)["queue_push"])]
     abort_all = lib.call_blocks(R, lambda n: n == H.path)
     if not ctx.floor("C02.a", len(run_blocks), 1, "callback.run call in runner"):
         return
@@ -152,7 +152,7 @@ def check(ctx):
                   "abort is on a lookup-failure arm or on (take()==None, counter==0)",
                   "abort helper called on a path where the target was found and could run")
     # setup.run precedes callback.run with the own setup
-    setup_run = [b for b, t, fr in R.calls_named(lambda n: lib.tail(n, 2).endswith("Setup::run"))]
+    setup_run = [b for b, t, fr in R.calls_named(lambda n: lib.tail(n, 2) == A.names(prog)["setup_run"])]
     for b in run_blocks:
         ok = any(R.dominates(s, b) and R.dominates(some_t, s) and lib.originates_from_arg(R, R.blocks[s]["term"]["args"][0], 3) for s in setup_run)
         ctx.check(ok, "C02.a", "%s:setup-runs-before-callback" % fk, R.loc(b),
@@ -182,10 +182,11 @@ def check(ctx):
                   "re-insertion happens after the run", "storage.insert is not dominated by callback.run")
 
     # --- C02.c nothing postponed is lost ---
-    q = A.TABLE["queue_type"]
-    removes = [b for b in lib.call_blocks(R, lambda n: lib.tail(n, 2) == q + "::remove") if any(R.dominates(rb, b) for rb in run_blocks)]
-    appends = lib.call_blocks(R, lambda n: lib.tail(n, 2) == q + "::append")
-    pops = lib.call_blocks(R, lambda n: lib.tail(n, 2) == q + "::pop_front")
+    NM = A.names(prog)
+    q = NM["queue_type"]
+    removes = [b for b in lib.call_blocks(R, lambda n: lib.tail(n, 2) == NM["queue_detach"]) if any(R.dominates(rb, b) for rb in run_blocks)]
+    appends = lib.call_blocks(R, lambda n: lib.tail(n, 2) == NM["queue_attach"])
+    pops = lib.call_blocks(R, lambda n: lib.tail(n, 2) == NM["queue_pop"])
     if ctx.floor("C02.c", len(removes), 1, "queue.remove() after the run"):
         rb = removes[0]
         good_app = [b for b in appends if lib.originates_from_call(R, R.blocks[b]["term"]["args"][1], rb)]
@@ -334,7 +335,7 @@ def check(ctx):
     ctx.check(not uses, "C02.d", "runner-not-used-as-value", "", "runner is never taken as a fn value",
               "the runner is used as a function value in %s" % [u[0].path for u in uses])
     ctx.floor("C02.d", len(callers), 8, "runner call sites (1+1+5+replay)")
-    run_def = [b for b in prog.bodies if lib.tail(b.path, 2) == A.TABLE["callback_run"]]
+    run_def = [b for b in prog.bodies if lib.tail(b.path, 2) == A.names(prog)["callback_run"]]
     if ctx.floor("C02.d", len(run_def), 1, "SystemCommandCallback::run"):
         cr = prog.callers_of(lambda n: n == run_def[0].path)
         for (cb, b, t, fr) in cr:
@@ -393,7 +394,8 @@ def is_counter_call(R, o):
     fr = op_fn(R.blocks[o[1]]["term"]["func"])
     if not fr:
         return False
-    return any(A.TABLE["counter_type"] in a for a in fr.get("args", [])) or A.TABLE["counter_type"] in mir.fn_name(fr)
+    ct = A.names(R.prog)["counter_type"]
+    return any(ct in a for a in fr.get("args", [])) or ct in mir.fn_name(fr)
 
 
 def lookup_calls(R):
